@@ -116,6 +116,14 @@ class Script:
         self.vals[b] = len(lossy)
         return a, b
 
+    def val_raw(self, raw):
+        """a value with exactly these bytes"""
+        self.nv += 1
+        vid = self.idbase + self.nv
+        self.pv.append({"id": vid, "hex": bytes(raw).hex()})
+        self.vals[vid] = len(raw)
+        return vid
+
     def newval(self, ln):
         if ln < 4 and ln in self.vbylen:
             return self.vbylen[ln]      # tiny values: the universe is too small for distinct fillers
@@ -272,6 +280,21 @@ def layout_buckets(nb):
     return 16 * 1024 * 1024
 
 
+def special_bytes(rng):
+    """byte strings with a shape of their own: runs of 0x00 / 0x80 / 0xFF, prefixes of each other, the image of a free
+    piece or of a file header, vu64-looking starts, multi-byte UTF-8 (also cut in the middle)"""
+    fam = bytes(rng.getrandbits(8) for _ in range(6))
+    out = [b"\x00" * 9, b"\xff" * 10, b"\x80" * 8, b"\x00" * 24 + b"\x01", b"\xff" * 40,
+           fam[:2], fam[:3], fam[:4], fam, fam + b"\x00", fam + b"\x00\x00",
+           bytes([2, 0]) + (208).to_bytes(8, "little") + b"\x00" * 6,            # looks like a free 16-byte piece
+           b"abysdbK\x00bytes\x00\x00\x00" + b"\x00" * 16,                         # looks like a file header
+           bytes([0x80, 0x01]) + b"xyz", bytes([0xC0, 0x00, 0x00]) + b"q", bytes([0xFF]) + (7).to_bytes(8, "little"),
+           "gr\u00fc\u00dfe \u4e16\u754c".encode(), "\u4e16\u754c".encode()[:-1], b"\xf0\x9f\x98",
+           bytes(range(256))[:64], b"\x01" * 1016, b"\x00" * 1100]
+    rng.shuffle(out)
+    return out
+
+
 def gen_mix(seed, idbase=0, nops=220, name="mix"):
     """Every feature in ONE history (each property's check runs a few of these and reports the conjuncts that
     belong to it): 1-3 maps of random key types, small tables (collisions) with random buffer parameters, several
@@ -291,6 +314,15 @@ def gen_mix(seed, idbase=0, nops=220, name="mix"):
     nh = 0
     vlens = [0, 1, 3, 14, 15, 20, 21, 100, 300, 900, 1100, 1500, 3000, 17000]
     vids = [s.val_ascii(x) for x in vlens]
+    spec = special_bytes(rng)
+    sv = []
+    for b in spec[:8]:
+        try:
+            b.decode("utf-8")          # the *_string calls of this generator expect values that survive lossy decoding
+            sv.append(s.val_raw(b))
+        except UnicodeDecodeError:
+            pass
+    vids += sv
     for i in range(nmaps):
         kt = rng.choice(KTS)
         nb = rng.choice([["BucketsSize", 1], ["BucketsSize", 2], ["BucketsSize", 4], ["BucketsSize", 16], ["BucketsSize", 64], ["Capacity", 12], ["BucketsSize", 300]])
@@ -304,6 +336,15 @@ def gen_mix(seed, idbase=0, nops=220, name="mix"):
             keys = typed_keys(s, rng, kt, 14)
         else:
             keys = [k for k in [s.key(ln) for ln in (0, 10, 10, 11, 11, 18, 19, 12, 26, 1, 4, 30, 100, 1000)] if k]
+            for b in spec[8:14]:
+                if kt == "string":
+                    try:
+                        b.decode("utf-8")
+                    except UnicodeDecodeError:
+                        continue
+                k = s.key(raw=b)
+                if k:
+                    keys.append(k)
         maps.append(dict(name=nm, kt=kt, keys=keys, hs=[nh], base=nh))
     snap = 0
 
@@ -843,6 +884,40 @@ def gen_sync(seed, idbase=0, nops=160, nmaps=2, kill=False, name="sync"):
     return s
 
 
+def gen_sync_scale(seed, idbase=0, segs=(1024, 512, 2048, 1000), kt="u64", name="syncscale"):
+    """C03 at scale: exactly 2^k (and other round numbers of) effective updates between two flushes / syncs, each
+    followed by a snapshot that another process opens - counters, thresholds and batch sizes inside the crate
+    must not matter"""
+    rng = random.Random(seed)
+    s = Script(idbase, design=False, name=name)
+    s.meta.update(kind="syncscale", seed=seed)
+    keys = _mk_keys(s, rng, kt, 300)
+    vids = [s.newval(x) for x in (3, 5, 20, 21)]
+    s.op("open_db", db=0, dir="d")
+    s.op("map", h=1, db=0, name="m", kt=kt, params={"buckets": ["BucketsSize", 256]})
+    live = set()
+    for si, seg in enumerate(segs):
+        n = 0
+        while n < seg:
+            k = rng.choice(keys)
+            if k in live and rng.random() < 0.3:
+                s.op("del", h=1, k=k)          # a delete of a live key: an effective update
+                live.discard(k)
+            else:
+                s.op("put", h=1, k=k, v=rng.choice(vids))
+                live.add(k)
+            n += 1
+        s.op(["flush", "flush", "sync_data", "flush"][si % 4], h=1)
+        d = "snap%d" % si
+        s.op("copy_dir", **{"from": "d", "to": d})
+        s.op("child_dump", dir=d, name="m", kt=kt, ks=keys, **{"as": "C03.snapshot"})
+        s.op("rm_dir", dir=d)
+    s.op("dump", h=1, ks=keys)
+    s.op("new_process")
+    s.op("child_dump", dir="d", name="m", kt=kt, ks=keys)
+    return s
+
+
 def gen_fault(seed, idbase=0, shape="val", threshold=0, syncop="flush", name="fault", second=None, retry=False):
     """C16: the OS refuses writes beyond `threshold` bytes (RLIMIT_FSIZE) during one flush/sync; full
     buffering, so only the flush writes.  Then: reads, lift, flush again, snapshot."""
@@ -1214,6 +1289,10 @@ def gen_twice(seed, idbase=0, nops=150, nb=("BucketsSize", 32), kt="bytes", bufs
     keys = _mk_keys(s, rng, kt, nkeys)
     vids = [s.newval(x) for x in (0, 3, 20, 21, 100, 1100, 1500, 5000, 20000)]
     params = {"buckets": list(nb)}
+    chainkeys = []
+    if nkeys >= 20 and n <= 2:
+        # a bucket chain of more than 64 entries (lookups deep inside it happen in replica B only)
+        chainkeys = _mk_keys(s, rng, kt, 70, lens=[9, 10, 12])
     if bufs:
         params.update(key_buf=bufs[0], val_buf=bufs[1], htx_buf=bufs[2])
     upd = []
@@ -1268,6 +1347,12 @@ def gen_twice(seed, idbase=0, nops=150, nb=("BucketsSize", 32), kt="bytes", bufs
         s.op("map", h=1, db=0, name="m", kt=kt, params=params)
         if rep == "B":
             s.op("iter", h=1, flavour=rng.choice(FLAVOURS))      # traversal of the fresh, empty table
+        for ck in chainkeys:
+            s.op("put", h=1, k=ck, v=vids[1])
+        if rep == "B":
+            for ck in chainkeys[:12] + chainkeys[-3:]:
+                s.op("get", h=1, k=ck)
+                s.op("includes", h=1, k=ck)
         for (o, k, v) in tail_ops:
             if o == "put":
                 s.op("put", h=1, k=k, v=v)
@@ -1322,6 +1407,10 @@ def gen_wrongtype(seed, idbase=0, pairs=None, sigvals=4, name="wrongtype"):
     rng = random.Random(seed)
     s = Script(idbase, design=False, name=name)
     s.meta.update(kind="wrongtype", seed=seed)
+    # every second map has a dot in its name (the file names are <name>.htx/.key/.val: "m.bytes.key")
+    def MN(kt):
+        return ("m." if KTS.index(kt) % 2 == 0 else "m_") + kt
+
     pairs = pairs if pairs is not None else [(a, b) for a in KTS for b in KTS if a != b]
     tagn = 0
 
@@ -1346,7 +1435,7 @@ def gen_wrongtype(seed, idbase=0, pairs=None, sigvals=4, name="wrongtype"):
     keysof = {}
     vids = [s.newval(x) for x in (3, 20, 1100)]
     for i, kt in enumerate(KTS):
-        s.op("map", h=i + 1, db=0, name="m_" + kt, kt=kt, params={"buckets": ["BucketsSize", 8]})
+        s.op("map", h=i + 1, db=0, name=MN(kt), kt=kt, params={"buckets": ["BucketsSize", 8]})
         keysof[kt] = _mk_keys(s, rng, kt, 4)
         for k in keysof[kt]:
             s.op("put", h=i + 1, k=k, v=rng.choice(vids))
@@ -1358,34 +1447,34 @@ def gen_wrongtype(seed, idbase=0, pairs=None, sigvals=4, name="wrongtype"):
     s.op("copy_dir", **{"from": "d", "to": "bak"})
     # (1) every ordered pair of key types
     for (a, b) in pairs:
-        refused("d", "m_" + a, b, "open %s as %s" % (a, b))
+        refused("d", MN(a), b, "open %s as %s" % (a, b))
     # (2) one of the three files carries the signature of another key type (file swapped in)
     for (a, b) in rng.sample(pairs, min(len(pairs), 8)):
         if SIG2[a] == SIG2[b]:
             continue
         for ext in ("htx", "key", "val"):
-            s.op("mutate_file", file="d/m_%s.%s" % (a, ext), copy_from="bak/m_%s.%s" % (b, ext), map="d/m_" + a, foreign=True)
-            refused("d", "m_" + a, a, "file .%s of %s swapped in" % (ext, b))
-            s.op("mutate_file", file="d/m_%s.%s" % (a, ext), copy_from="bak/m_%s.%s" % (a, ext), map="d/m_" + a, foreign=False)
+            s.op("mutate_file", file="d/%s.%s" % (MN(a), ext), copy_from="bak/%s.%s" % (MN(b), ext), map="d/" + MN(a), foreign=True)
+            refused("d", MN(a), a, "file .%s of %s swapped in" % (ext, b))
+            s.op("mutate_file", file="d/%s.%s" % (MN(a), ext), copy_from="bak/%s.%s" % (MN(a), ext), map="d/" + MN(a), foreign=False)
     # (2b) a file of the SIBLING kind of the same map in place of another one (botched restore)
     for kt in rng.sample(KTS, 2):
         for dst, src in (("val", "key"), ("key", "val"), ("htx", "key"), ("key", "htx"), ("val", "htx")):
-            s.op("mutate_file", file="d/m_%s.%s" % (kt, dst), copy_from="bak/m_%s.%s" % (kt, src), map="d/m_" + kt, foreign=True)
-            refused("d", "m_" + kt, kt, "the .%s file in place of the .%s file" % (src, dst))
-            s.op("mutate_file", file="d/m_%s.%s" % (kt, dst), copy_from="bak/m_%s.%s" % (kt, dst), map="d/m_" + kt, foreign=False)
+            s.op("mutate_file", file="d/%s.%s" % (MN(kt), dst), copy_from="bak/%s.%s" % (MN(kt), src), map="d/" + MN(kt), foreign=True)
+            refused("d", MN(kt), kt, "the .%s file in place of the .%s file" % (src, dst))
+            s.op("mutate_file", file="d/%s.%s" % (MN(kt), dst), copy_from="bak/%s.%s" % (MN(kt), dst), map="d/" + MN(kt), foreign=False)
     # (2c) one file missing or empty, the others of another key type: still refused, the existing files unchanged
     for (a, b) in rng.sample([p for p in pairs if SIG2[p[0]] != SIG2[p[1]]], 3):
         for ext in ("htx", "val", "key"):
             for how in ("truncate", "remove"):
                 if how == "truncate":
-                    s.op("mutate_file", file="d/m_%s.%s" % (a, ext), truncate=0, map="d/m_" + a, foreign=True)
+                    s.op("mutate_file", file="d/%s.%s" % (MN(a), ext), truncate=0, map="d/" + MN(a), foreign=True)
                 else:
-                    s.op("mutate_file", file="d/m_%s.%s" % (a, ext), remove=True, map="d/m_" + a, foreign=True)
+                    s.op("mutate_file", file="d/%s.%s" % (MN(a), ext), remove=True, map="d/" + MN(a), foreign=True)
                 # the absent / empty file is not one "created for a key type": the open has to be refused and the
                 # two files that exist must stay as they are (the unchanged tree initialises an empty .key first)
-                refused("d", "m_" + a, b, "%s .%s, opened as %s" % (how, ext, b),
+                refused("d", MN(a), b, "%s .%s, opened as %s" % (how, ext, b),
                         only=[j + 1 for j, x in enumerate(("htx", "key", "val")) if x != ext])
-                s.op("mutate_file", file="d/m_%s.%s" % (a, ext), copy_from="bak/m_%s.%s" % (a, ext), map="d/m_" + a, foreign=False)
+                s.op("mutate_file", file="d/%s.%s" % (MN(a), ext), copy_from="bak/%s.%s" % (MN(a), ext), map="d/" + MN(a), foreign=False)
     # (3) single-byte mutations of the 16 signature bytes of each file
     a = rng.choice(KTS)
     for ext in ("htx", "key", "val"):
@@ -1393,18 +1482,18 @@ def gen_wrongtype(seed, idbase=0, pairs=None, sigvals=4, name="wrongtype"):
         for off in range(16):
             vals = [x for x in range(256) if x != orig[off]]
             for x in (vals if sigvals >= 255 else rng.sample(vals, sigvals)):
-                s.op("mutate_file", file="d/m_%s.%s" % (a, ext), at=off, hex="%02x" % x, map="d/m_" + a, foreign=True)
-                refused("d", "m_" + a, a, "byte %d of .%s = %02x" % (off, ext, x))
-                s.op("mutate_file", file="d/m_%s.%s" % (a, ext), at=off, hex="%02x" % orig[off], map="d/m_" + a, foreign=False)
+                s.op("mutate_file", file="d/%s.%s" % (MN(a), ext), at=off, hex="%02x" % x, map="d/" + MN(a), foreign=True)
+                refused("d", MN(a), a, "byte %d of .%s = %02x" % (off, ext, x))
+                s.op("mutate_file", file="d/%s.%s" % (MN(a), ext), at=off, hex="%02x" % orig[off], map="d/" + MN(a), foreign=False)
     # (4) short and long foreign files in place of one of the files
     for ext, ln in (("key", 1), ("key", 100), ("key", 191), ("key", 192), ("key", 5000), ("val", 100), ("val", 191), ("htx", 60), ("htx", 127), ("htx", 128), ("htx", 4000)):
         text = (b"This is not a database file. " * 200)[:ln]
-        s.op("mutate_file", file="d/m_%s.%s" % (a, ext), content_hex=text.hex(), map="d/m_" + a, foreign=True)
-        refused("d", "m_" + a, a, "foreign %d-byte file as .%s" % (ln, ext))
-        s.op("mutate_file", file="d/m_%s.%s" % (a, ext), copy_from="bak/m_%s.%s" % (a, ext), map="d/m_" + a, foreign=False)
+        s.op("mutate_file", file="d/%s.%s" % (MN(a), ext), content_hex=text.hex(), map="d/" + MN(a), foreign=True)
+        refused("d", MN(a), a, "foreign %d-byte file as .%s" % (ln, ext))
+        s.op("mutate_file", file="d/%s.%s" % (MN(a), ext), copy_from="bak/%s.%s" % (MN(a), ext), map="d/" + MN(a), foreign=False)
     # afterwards every map still opens with its contents
     for kt in KTS:
-        s.op("child_dump", dir="d", name="m_" + kt, kt=kt, ks=keysof[kt])
+        s.op("child_dump", dir="d", name=MN(kt), kt=kt, ks=keysof[kt])
     return s
 
 
@@ -1729,18 +1818,23 @@ def gen_golden_check(seed, golden_dir, expected, idbase_unused=0, nops=120, name
     keys = [k["id"] for k in expected["tables"]["keys"]]
     vals = [v["id"] for v in expected["tables"]["vals"]]
     s.idbase = max(keys + vals) + 1000
-    s.op("install", src=golden_dir, dir="g")
-    s.op("load", m="g/m", dir="g", kt=kt, n=expected["n"], content=content)
-    s.op("digest", dir="g", name="m", tag="golden_before")
-    s.op("decode", dir="g", name="m", native=True)
-    s.op("child_dump", dir="g", name="m", kt=kt, **{"as": "C12.content"})
-    s.op("digest", dir="g", name="m", tag="golden_after")
+    # released directories also hold maps whose NAME contains dots: every second image is installed as "m.v2.2024"
+    mn = "m.v2.2024" if (seed % 2 == 1) else "m"
+    if mn == "m":
+        s.op("install", src=golden_dir, dir="g")
+    else:
+        s.op("install", src=golden_dir, dir="g", rename=mn)
+    s.op("load", m="g/" + mn, dir="g", kt=kt, n=expected["n"], content=content)
+    s.op("digest", dir="g", name=mn, tag="golden_before")
+    s.op("decode", dir="g", name=mn, native=True)
+    s.op("child_dump", dir="g", name=mn, kt=kt, **{"as": "C12.content"})
+    s.op("digest", dir="g", name=mn, tag="golden_after")
     s.op("note", conj="C15.bytes", same=["golden_before", "golden_after"])
     s.op("open_db", db=0, dir="g")
-    s.op("map", h=1, db=0, name="m", kt=kt, **{"as": "C12.content"})
+    s.op("map", h=1, db=0, name=mn, kt=kt, **{"as": "C12.content"})
     s.op("dump", h=1, **{"as": "C12.content"})
     s.op("iter", h=1, flavour="iter")
-    dec = dict(dir="g", name="m", flush_h=1, native=True)
+    dec = dict(dir="g", name=mn, flush_h=1, native=True)
     s.op("decode", **dec)
     small = [v["id"] for v in expected["tables"]["vals"] if v["len"] < 900] or vals
     newv = [s.newval(x) for x in (5, 50, 1200)]
@@ -1759,8 +1853,8 @@ def gen_golden_check(seed, golden_dir, expected, idbase_unused=0, nops=120, name
             s.op("decode", **dec)
     s.op("dump", h=1)
     s.op("new_process")
-    s.op("decode", dir="g", name="m", native=True)
-    s.op("child_dump", dir="g", name="m", kt=kt, **{"as": "C12.content"})
+    s.op("decode", dir="g", name=mn, native=True)
+    s.op("child_dump", dir="g", name=mn, kt=kt, **{"as": "C12.content"})
     return s
 
 
